@@ -138,9 +138,11 @@ fn fixed_tables() -> Vec<Vec<TRow>> {
     ]
 }
 
-fn all_tables(kmax: usize) -> Vec<TableSpec> {
+/// enumerated tables with <= kfull rows, then the fixed tables, then the deeper enumerated tables
+fn all_tables(kmax: usize, kfull: usize) -> Vec<TableSpec> {
     let mut out = vec![];
-    for rows in multisets(kmax) {
+    let ms = multisets(kmax);
+    for rows in ms.iter().filter(|r| r.len() <= kfull) {
         for pk in [false, true] {
             out.push(TableSpec { pk, rows: rows.clone(), fixed: false });
         }
@@ -148,6 +150,11 @@ fn all_tables(kmax: usize) -> Vec<TableSpec> {
     for rows in fixed_tables() {
         for pk in [false, true] {
             out.push(TableSpec { pk, rows: rows.clone(), fixed: true });
+        }
+    }
+    for rows in ms.iter().filter(|r| r.len() > kfull) {
+        for pk in [false, true] {
+            out.push(TableSpec { pk, rows: rows.clone(), fixed: false });
         }
     }
     out
@@ -481,6 +488,55 @@ fn classify(r: &QueryResult, obs: &[Row]) -> &'static str {
     }
 }
 
+
+/// Constructs that are known-broken on the current tree (findings.d/C15.json, KF-C15-nn).
+/// The deep pass leaves exactly these out so that the remainder is explored on the larger
+/// tables; the full pass (smaller tables + the fixed 8-row tables) still runs them.
+fn known_broken(b: &Base, shape: &[(usize, bool)], limit: Option<u64>, offset: Option<u64>) -> Option<u8> {
+    let has = |k: &str| shape.iter().any(|(i, _)| b.atoms[*i].kind == k);
+    let ordered = !shape.is_empty();
+    let windowed = limit.is_some() || offset.is_some();
+    let single = b.combo.starts_with("plain") || b.combo == "groupby";
+    let join = b.combo == "join" || b.combo == "leftjoin";
+    let union = b.combo.starts_with("union");
+    if union && ordered {
+        // sorts by the first output column in the first key's direction, and only without LIMIT
+        let first_col_only = shape.len() == 1 && b.atoms[shape[0].0].name == "a";
+        return if windowed {
+            Some(2)
+        } else if first_col_only {
+            None
+        } else {
+            Some(3)
+        };
+    }
+    if join && limit == Some(0) {
+        return Some(4);
+    }
+    if b.distinct != "all" && windowed {
+        return Some(if join { 5 } else { 7 });
+    }
+    if join && ordered && (windowed || has("expr") || has("ord")) {
+        return Some(6);
+    }
+    if single && ordered && limit == Some(0) && offset.is_none() {
+        return Some(1);
+    }
+    if b.combo == "plain-star" && ordered && !windowed {
+        return Some(8);
+    }
+    if b.combo == "groupby" && !windowed && (has("agg") || has("expr") || has("ord")) {
+        return Some(9);
+    }
+    if has("hidden") && !windowed {
+        return Some(10);
+    }
+    if has("ord") {
+        return Some(11);
+    }
+    None
+}
+
 /// plan shape: operator names of the EXPLAIN text, outermost first
 fn plan_ops(plan: &str) -> Vec<String> {
     plan.lines().filter_map(|l| l.trim().strip_prefix("-> ")).map(|l| l.split(|c: char| !c.is_alphanumeric()).next().unwrap_or("").to_string()).collect()
@@ -574,92 +630,108 @@ fn check_one(t: &TestDb, mdb: &mq::Database, qc: &QueryCase, rep: &mut Reporter,
     }
 }
 
-/// All queries of one (table, base) unit on its own fresh database.
-fn run_unit(ctx: &Ctx, rep: &mut Reporter, spec: &TableSpec, base: &Base, unit: u64, explain: bool) {
-    let name = format!("u{unit}");
+/// All queries of the selected bases on one table, on one fresh database.  Queries with
+/// LIMIT 0 (they panic on the current tree) run last.
+fn run_table(ctx: &Ctx, rep: &mut Reporter, spec: &TableSpec, ti: usize, bases: &[Base], explain: bool, deep: bool) {
+    let name = format!("t{ti}");
     let (mut t, mdb) = match setup(&ctx.scratch, &name, spec) {
         Ok(x) => x,
         Err(e) => {
             rep.count("setup_failures", 1);
-            rep.note(&format!("setup failed (unit skipped): {}", vcore::util::clip(&e, 200)));
+            rep.note(&format!("setup failed (table skipped): {}", vcore::util::clip(&e, 200)));
             return;
         }
     };
     let mut dirty = false; // a statement panicked on this handle
     let mut n = 0u64;
     let mut nontrivial = 0u64;
-    let shapes = shapes(base);
     for zero_pass in [false, true] {
-        for shape in &shapes {
-            let qb = with_order(base, shape);
-            let m = match qb.eval(&mdb) {
-                Ok(r) => r.full.len() as u64,
-                Err(e) => {
-                    if !zero_pass {
-                        rep.count("model_error_skips", 1);
-                        rep.note(&format!("model error (shape skipped): {e} for base {}", base.name));
+        for base in bases {
+            let mut nb = 0u64;
+            for shape in &shapes(base) {
+                let qb = with_order(base, shape);
+                let m = match qb.eval(&mdb) {
+                    Ok(r) => r.full.len() as u64,
+                    Err(e) => {
+                        if !zero_pass {
+                            rep.count("model_error_skips", 1);
+                            rep.note(&format!("model error (shape skipped): {e} for base {}", base.name));
+                        }
+                        continue;
                     }
-                    continue;
-                }
-            };
-            let (rest, zero) = windows(m, shape.len() >= 2);
-            for (limit, offset) in if zero_pass { zero } else { rest } {
-                let qc = QueryCase { spec, base, shape, limit, offset };
-                // a violation seen after a panic on the same handle is confirmed on a fresh
-                // database first, so that every reported case reproduces from scratch
-                if dirty && check_one(&t, &mdb, &qc, rep, true) == Verdict::Fail {
-                    rep.count("rechecked_on_fresh_db_after_panic", 1);
-                    drop(t);
-                    match setup(&ctx.scratch, &name, spec) {
-                        Ok(x) => t = x.0,
-                        Err(e) => {
-                            rep.count("setup_failures", 1);
-                            rep.note(&format!("setup failed (unit cut): {}", vcore::util::clip(&e, 200)));
-                            return;
+                };
+                let (rest, zero) = windows(m, shape.len() >= 2);
+                for (limit, offset) in if zero_pass { zero } else { rest } {
+                    let qc = QueryCase { spec, base, shape, limit, offset };
+                    let kb = known_broken(base, shape, limit, offset);
+                    if deep {
+                        if let Some(k) = kb {
+                            rep.pruned(1);
+                            rep.count(&format!("deep_pass_left_out_KF-C15-{k:02}"), 1);
+                            continue;
                         }
                     }
-                    dirty = false;
-                }
-                let v = check_one(&t, &mdb, &qc, rep, false);
-                if v == Verdict::Panicked {
-                    dirty = true;
-                }
-                if v != Verdict::Skipped {
-                    n += 1;
-                    if m >= 2 && (!shape.is_empty() || limit.is_some() || offset.is_some() || base.distinct != "all") {
-                        nontrivial += 1;
-                    }
-                    if !shape.is_empty() {
-                        rep.count("queries_ordered", 1);
-                    }
-                    if limit.is_some() || offset.is_some() {
-                        rep.count("queries_windowed", 1);
-                    }
-                }
-                if explain && !zero_pass {
-                    let q = qc.query();
-                    match sqlh::explain(t.db(), &q.to_sql()) {
-                        Some(p) => {
-                            let ops = plan_ops(&p);
-                            for o in &ops {
-                                rep.count(&format!("plan_op_{o}"), 1);
+                    // a violation seen after a panic on the same handle is confirmed on a fresh
+                    // database first, so that every reported case reproduces from scratch
+                    if dirty && check_one(&t, &mdb, &qc, rep, true) == Verdict::Fail {
+                        rep.count("rechecked_on_fresh_db_after_panic", 1);
+                        drop(t);
+                        match setup(&ctx.scratch, &name, spec) {
+                            Ok(x) => t = x.0,
+                            Err(e) => {
+                                rep.count("setup_failures", 1);
+                                rep.note(&format!("setup failed (table cut): {}", vcore::util::clip(&e, 200)));
+                                return;
                             }
-                            rep.outcome(&format!("plan:{}", ops.join(">")));
                         }
-                        None => rep.count("explain_failed", 1),
+                        dirty = false;
+                    }
+                    let v = check_one(&t, &mdb, &qc, rep, false);
+                    if v == Verdict::Panicked {
+                        dirty = true;
+                    }
+                    if v != Verdict::Skipped {
+                        nb += 1;
+                        if deep {
+                            rep.count("queries_deep_pass", 1);
+                        } else if kb.is_some() {
+                            rep.count(if v == Verdict::Pass { "full_pass_known_broken_construct_passed" } else { "full_pass_known_broken_construct_failed" }, 1);
+                        }
+                        if m >= 2 && (!shape.is_empty() || limit.is_some() || offset.is_some() || base.distinct != "all") {
+                            nontrivial += 1;
+                        }
+                        if !shape.is_empty() {
+                            rep.count("queries_ordered", 1);
+                        }
+                        if limit.is_some() || offset.is_some() {
+                            rep.count("queries_windowed", 1);
+                        }
+                    }
+                    if explain && !zero_pass {
+                        let q = qc.query();
+                        match sqlh::explain(t.db(), &q.to_sql()) {
+                            Some(p) => {
+                                let ops = plan_ops(&p);
+                                for o in &ops {
+                                    rep.count(&format!("plan_op_{o}"), 1);
+                                }
+                                rep.outcome(&format!("plan:{}", ops.join(">")));
+                            }
+                            None => rep.count("explain_failed", 1),
+                        }
                     }
                 }
             }
+            n += nb;
+            rep.count(&format!("queries_{}", base.name), nb);
         }
         if ctx.expired() {
-            rep.capped("deadline inside a unit");
+            rep.capped("deadline inside a table");
             break;
         }
     }
     rep.bulk(n, nontrivial);
     rep.count("queries", n);
-    rep.count(&format!("queries_{}", base.name), n);
-    rep.count("units", 1);
 }
 
 struct C15;
@@ -684,41 +756,49 @@ impl Check for C15 {
 
     fn run(&self, ctx: &Ctx, rep: &mut Reporter) {
         let kmax = ctx.opt("kmax").and_then(|s| s.parse().ok()).unwrap_or(ctx.tier.pick(4usize, 6usize));
+        let kfull = ctx.opt("kfull").and_then(|s| s.parse().ok()).unwrap_or(ctx.tier.pick(2usize, 4usize));
         let only_base = ctx.opt("base").map(|s| s.to_string());
+        rep.bound("full_pass_max_rows", json!(kfull));
         rep.bound("max_rows_enumerated_tables", json!(kmax));
         rep.bound("fixed_tables_rows", json!(8));
         for c in ["queries", "queries_ordered", "queries_windowed", "pass_window_exact", "pass_window_tie_ambiguous", "plan_op_Sort", "plan_op_TopK", "plan_op_Limit", "plan_op_HashAggregate"] {
             rep.expect_nonzero(c);
         }
-        let tables = all_tables(kmax);
+        let tables = all_tables(kmax, kfull);
         rep.bound("tables", json!(tables.len()));
-        let nb = 16u64;
+        // work is split by table (one database per table); a fixed 8-row table is split by base
+        let mut slot = 0u64;
         for (ti, spec) in tables.iter().enumerate() {
-            let bs = bases(spec.pk);
-            assert!(bs.len() as u64 <= nb);
-            let mut any = false;
-            for (bi, b) in bs.iter().enumerate() {
-                let unit = ti as u64 * nb + bi as u64;
-                if !ctx.mine(unit) {
-                    continue;
-                }
-                if let Some(ob) = &only_base {
-                    if b.name != ob {
-                        continue;
-                    }
-                }
-                any = true;
-                let explain = spec.fixed || (ti / 2) % 16 == 3;
-                run_unit(ctx, rep, spec, b, unit, explain);
+            let mut bs = bases(spec.pk);
+            if let Some(ob) = &only_base {
+                bs.retain(|b| b.name == ob);
             }
-            if any {
+            let mine: Vec<Base> = if spec.fixed {
+                bs.into_iter()
+                    .filter(|_| {
+                        slot += 1;
+                        ctx.mine(slot)
+                    })
+                    .collect()
+            } else {
+                slot += 1;
+                if ctx.mine(slot) {
+                    bs
+                } else {
+                    vec![]
+                }
+            };
+            if !mine.is_empty() {
+                let explain = spec.fixed || (ti / 2) % 16 == 3;
+                let deep = !spec.fixed && spec.rows.len() > kfull;
+                run_table(ctx, rep, spec, ti, &mine, explain, deep);
                 rep.count("tables_touched", 1);
                 if spec.rows.iter().all(|(a, c)| a.is_some() && c.is_some()) {
                     rep.count("tables_touched_null_free", 1);
                 }
             }
             if ctx.expired() {
-                rep.capped(&format!("deadline at table #{ti} ({} rows): every table with fewer rows was covered, the fixed 8-row tables were not", spec.rows.len()));
+                rep.capped(&format!("deadline at table #{ti} ({} rows{}): every table with fewer rows was covered", spec.rows.len(), if spec.fixed { ", fixed" } else { "" }));
                 return;
             }
         }
@@ -774,6 +854,10 @@ fn dev_probe(stmts: &str) {
 
 fn main() {
     if let Ok(s) = std::env::var("C15_PROBE") {
+        let s = match s.strip_prefix('@') {
+            Some(f) => std::fs::read_to_string(f).expect("probe file"),
+            None => s,
+        };
         dev_probe(&s);
         return;
     }
